@@ -163,8 +163,20 @@ def _eq(a, b, **kw):
     if a.shape != b.shape:
         return False
     if a.dtype.kind in 'fc' or b.dtype.kind in 'fc':
-        return bool(np.array_equal(a, b, equal_nan=True))
+        if not np.array_equal(a, b, equal_nan=True):
+            return False
+        # equal as numbers; NumPy's result also fixes the sign of every zero (-(+0.0) is -0.0: 1/x, arctan2 and the branch cuts
+        # of later operations see the difference)
+        return _zero_signs(a) == _zero_signs(b)
     return bool(np.array_equal(a, b))
+
+
+def _zero_signs(a):
+    a = np.asarray(a)
+    if a.dtype.kind not in 'fc':
+        a = a.astype(float)
+    a = a.astype(complex)
+    return ((a.real == 0) & np.signbit(a.real)).tobytes() + ((a.imag == 0) & np.signbit(a.imag)).tobytes()
 
 
 def _firstbad(a, b):
@@ -172,6 +184,9 @@ def _firstbad(a, b):
     ne = a != b
     if a.dtype.kind in 'fc' and b.dtype.kind in 'fc':
         ne = ne & ~(np.isnan(a) & np.isnan(b))
+    if not ne.any():
+        a, b = a.astype(complex), b.astype(complex)
+        ne = (np.signbit(a.real) != np.signbit(b.real)) | (np.signbit(a.imag) != np.signbit(b.imag))
     return np.argwhere(ne)[0]
 
 
@@ -900,7 +915,7 @@ def trace_cases(draw):
 @st.composite
 def symvec_cases(draw):
     n = draw(st.integers(1, 4))
-    case = draw(operand_st((n, n), exact=True))
+    case = draw(operand_st((n, n), exact=True, cplx=draw(st.integers(0, 2)) == 0))
     case.update(op='symvec', entry=draw(st.sampled_from(['global', 'global-kw', 'global-default', 'class'])),
                 params={'uplo': draw(st.sampled_from(['F', 'L', 'U']))})
     return case
@@ -909,7 +924,7 @@ def symvec_cases(draw):
 @st.composite
 def vecsym_cases(draw):
     n = draw(st.integers(1, 4))
-    case = draw(operand_st((n * (n + 1) // 2,)))
+    case = draw(operand_st((n * (n + 1) // 2,), cplx=draw(st.integers(0, 2)) == 0))
     case.update(op='vecsym', entry=draw(st.sampled_from(['global', 'class'])), params={})
     return case
 
